@@ -65,8 +65,8 @@ def run_c06(ck):
     binary = ck.binary("memhier")
     leaves = _leaves(ck)
     campaigns = ([dict(stacks=8, requests=40, max_cuts=6, canon_every=1)] if q else
-                 [dict(stacks=6, requests=6, max_cuts=0, canon_every=4),        # every distinct event time (~200 cuts per stack)
-                  dict(stacks=30, requests=50, max_cuts=16, canon_every=2)])
+                 [dict(stacks=3, requests=6, max_cuts=0, canon_every=4),        # every distinct event time (~200 cuts per stack)
+                  dict(stacks=16, requests=50, max_cuts=12, canon_every=2)])
     tot = dict(stacks=0, cuts=0, events=0, entities=0, exact=0, idle=0, exact_idle=0, busy=0, canon=0, procs=0, mism=0)
     for i, c in enumerate(campaigns):
         out = core.harness(binary, "memhier_ckpt", dict(seed=ck.seed * 10 + i, leaves=leaves, minimise=12, **c), timeout=3000)
